@@ -146,7 +146,10 @@ impl Ctx {
     pub fn begin(&self, label: impl FnOnce() -> String) {
         if self.trace {
             let mut e = std::io::stderr();
-            let _ = writeln!(e, "TRACE-CASE {}", label().replace('\n', "\\n"));
+            // one short line per case: the tracer reads only the tail of the file
+            let l = label().replace('\n', "\\n");
+            let short: String = if l.len() > 600 { format!("{}… ({} bytes)", l.chars().take(500).collect::<String>(), l.len()) } else { l };
+            let _ = writeln!(e, "TRACE-CASE #{} {}", self.counter.saturating_sub(1), short);
             let _ = e.flush();
         }
     }
@@ -364,7 +367,7 @@ pub fn cpu_seconds(pid: u32) -> Option<f64> {
 
 /// a shard counts as stuck in one case when its heartbeat has not moved while it burned this
 /// much CPU (load-independent: a starved process burns no CPU and is simply waited for)
-pub const STALL_CPU_S: f64 = 45.0;
+pub const STALL_CPU_S: f64 = 90.0;
 
 pub struct ShardOutcome {
     pub index: usize,
